@@ -135,3 +135,10 @@ Proof.
     + destruct (i * 2 ^ (- e) ?= m) eqn:C; cbv iota; try reflexivity.
       apply Z.compare_eq in C. subst m. rewrite Z.mod_mul in Em by lia. discriminate.
 Qed.
+
+Lemma lua_mixed_cmp_exact i f : in_i64 i ->
+  lua_lt_if i f = exact_lt_if i f /\ lua_le_if i f = exact_le_if i f /\
+  lua_lt_fi f i = exact_lt_fi f i /\ lua_le_fi f i = exact_le_fi f i /\ lua_eq_if i f = exact_eq_if i f.
+Proof.
+  intros. repeat split; [apply lua_lt_if_exact|apply lua_le_if_exact|apply lua_lt_fi_exact|apply lua_le_fi_exact|apply lua_eq_if_exact]; assumption.
+Qed.
